@@ -58,7 +58,14 @@ def _verify_one(job):
             "reachable": rep.reachable_paths, "queries": rep.queries, "assumed": sorted(rep.assumed),
             "wall": round(rep.wall, 3), "solver_time": round(rep.solver_time, 3), "sha": rep.finfo.sha,
             "notes": sorted(rep.notes), "exits": rep.exits, "schema": rep.schema,
+            "unreached_raises": [r.exc for r in c.raises if not any(_sub(x, r.exc) for x in rep.raised_classes)]
+            if not (rep.error or rep.crash) else [],
             "clock": list(c.clock), "ensures": dict(c.ensures), "raises": {r.exc: r.when for r in c.raises}}
+
+
+def _sub(a, b):
+    from .interp import exc_is_sub
+    return exc_is_sub(a, b)
 
 
 def _lemma_one(job):
